@@ -71,6 +71,29 @@ func (n *Net) TraceHash() uint64 {
 	return h
 }
 
+// CanonHash hashes the wire trace per connection (order within a connection matters, the
+// interleaving of different connections does not).
+func (n *Net) CanonHash() uint64 {
+	per := map[int]uint64{}
+	for i := range n.Trace {
+		e := &n.Trace[i]
+		h := per[e.Conn]
+		if h == 0 {
+			h = 1469598103934665603
+		}
+		h = h*1099511628211 ^ uint64(e.Dir)
+		h = h*1099511628211 ^ vrt.HashBytes(e.Raw)
+		h = h*1099511628211 ^ vrt.HashString(e.Note)
+		h = h*1099511628211 ^ uint64(e.T)
+		per[e.Conn] = h
+	}
+	var sum uint64
+	for c, h := range per {
+		sum += h * uint64(2*c+3)
+	}
+	return sum
+}
+
 // TraceStrings renders the wire trace.
 func (n *Net) TraceStrings() []string {
 	var out []string
